@@ -2,6 +2,7 @@
 //@serves C13 C20
 //@source gm-sm9/src/fields/fp4.rs
 //@assume the PartialEqSpecImpl of Fp2 (limb equality of both coefficients) is restated here as it is defined and proved for Fp2::eq in unit sm9_fp2 (`spec local` items are not exported by include-spec)
+//@assume the `ring_*` lemmas (integer-polynomial identities: associativity/distributivity of the Fp2 and Fp4 product formulas, Karatsuba's middle term; external_body in Verus) are discharged on every run by Lean `ring` (vf/ringcheck.py; any other shape is refused)
 //@include-spec sm2_math
 //@include-spec sm9_math
 //@include-spec sm9_fp2
@@ -478,6 +479,34 @@ pub proof fn f4_lemma_inv(a: Seq<int>) requires f4_ok(a), f2_norm(f4_norm(a)) % 
 // equal halves
 pub proof fn f4_lemma_ext(a: Seq<int>, b: Seq<int>) requires a.len() == 4, b.len() == 4, f4_lo(a) == f4_lo(b), f4_hi(a) == f4_hi(b) ensures a == b
 { f4_join(a); f4_join(b); }
+// halving is unique (p is odd): what fp_div2's contract `r + r == a` determines
+pub proof fn f2_half_unique_int(x: int, y: int) requires 0 <= x < P9(), 0 <= y < P9(), (x + x) % P9() == (y + y) % P9() ensures x == y
+{
+    f2_pos();
+    assert(P9() % 2 == 1) by(compute);
+    lemma_fundamental_div_mod(x + x, P9()); lemma_fundamental_div_mod(y + y, P9());
+    let q1 = (x + x) / P9(); let q2 = (y + y) / P9(); let r = (x + x) % P9();
+    f2_range(x + x);
+    assert(0 <= q1 <= 1) by(nonlinear_arith) requires x + x == P9() * q1 + r, 0 <= r < P9(), 0 <= x + x < 2 * P9();
+    assert(0 <= q2 <= 1) by(nonlinear_arith) requires y + y == P9() * q2 + r, 0 <= r < P9(), 0 <= y + y < 2 * P9();
+    if q1 != q2 {
+        assert(P9() * 1 == P9()); assert(P9() * 0 == 0);
+        assert(false);
+    }
+}
+pub proof fn f2_lemma_half_unique(x: Seq<int>, y: Seq<int>) requires f2_ok(x), f2_ok(y), f2_add(x, x) == f2_add(y, y) ensures x == y
+{
+    assert(f2_add(x, x)[0] == f2_add(y, y)[0] && f2_add(x, x)[1] == f2_add(y, y)[1]);
+    f2_half_unique_int(x[0], y[0]); f2_half_unique_int(x[1], y[1]);
+    assert(x =~= y);
+}
+pub proof fn f4_lemma_half_unique(x: Seq<int>, y: Seq<int>) requires f4_ok(x), f4_ok(y), f4_add(x, x) == f4_add(y, y) ensures x == y
+{
+    f4_split(f2_add(f4_lo(x), f4_lo(x)), f2_add(f4_hi(x), f4_hi(x)));
+    f4_split(f2_add(f4_lo(y), f4_lo(y)), f2_add(f4_hi(y), f4_hi(y)));
+    f2_lemma_half_unique(f4_lo(x), f4_lo(y)); f2_lemma_half_unique(f4_hi(x), f4_hi(y));
+    f4_lemma_ext(x, y);
+}
 pub proof fn f4_lemma_mul_assoc(a: Seq<int>, b: Seq<int>, c: Seq<int>) requires f4_ok(a), f4_ok(b), f4_ok(c)
     ensures f4_mul(f4_mul(a, b), c) == f4_mul(a, f4_mul(b, c))
 {
